@@ -1,7 +1,8 @@
 //! C10 (plain-cache level): file count after every write of one thread, with
 //! the trigger's draws scripted through the hooks.
 //! Input lines:  <capacity> <counter0> <initial files> <ops: s|p|S|P ...> <draws,...>
-//!   s/p = set/put of a fresh key; S/P = set/put of the key written first
+//!   s/p = set/put of a fresh key; S/P = set/put of the key written first (pre-planted, in
+//!   addition to <initial files>, when the sequence starts with S or P)
 //! Output: G <input> => <existed>:<count> ...
 use kismet_cache::plain::Cache;
 use kismet_cache::verif_hooks as vh;
@@ -37,6 +38,13 @@ pub fn from_stdin() {
             let p = dir.join(format!("p{}", i));
             std::fs::write(&p, "x").unwrap();
             let m = filetime::FileTime::from_unix_time(1_600_000_000 + 10 * i as i64, 0);
+            filetime::set_file_times(&p, base, m).unwrap();
+        }
+        // a sequence starting with S/P re-writes a key that is already cached (oldest entry)
+        if ops.starts_with('S') || ops.starts_with('P') {
+            let p = dir.join("w_first");
+            std::fs::write(&p, "x").unwrap();
+            let m = filetime::FileTime::from_unix_time(1_599_999_000, 0);
             filetime::set_file_times(&p, base, m).unwrap();
         }
         let capu = if cap > usize::MAX as u64 { usize::MAX } else { cap as usize };
